@@ -48,9 +48,9 @@ CHECKS = {
  'C14': ('property-based testing against a set-semantics reference with structural equality; complement laws asserted on the library\'s own answers',
          'Generated lists of arbitrary JSON values (nested, empty, duplicates), sub-multisets, near-subsets, non-arrays and missing arguments are fed to the five documented extension functions through every argument form (@.k, @, @[0], literal; $.l, $.m.n, @.own); kept elements must equal the set-semantics oracle, in/nin and any_of/none_of must be complements where the arguments are well-formed, and no call may return Err. Exploration only.',
          'Trusted: oracle::extension() transcribes the property statement; numbers are small integers only.', 'DESIGN.md section 4 C14'),
- 'C15': ('differential property-based testing across three Queryable implementations (serde_json::Value and two differently represented harness types), plus reference-evaluator comparison on shuffled member orders',
+ 'C15': ('differential property-based testing across four Queryable implementations (serde_json::Value and three differently represented harness types, one of which strips exactly one pair of enclosing quotes in get), plus reference-evaluator comparison on shuffled member orders',
          'The whole query generator (selectors, filters, comparisons, RFC functions) runs on the same document viewed as Value, as V1 (insertion-ordered members, Int/Float variants answering only their own accessor, non-null Default) and as V2 (f64 numbers, sorted map, content-free Debug, as_i64 always None): paths and values must agree position by position; with shuffled member order the result must be the RFC nodelist in that view\'s order and object equality must not depend on member order. Exploration only.',
-         'Trusted: the harness types implement the trait faithfully (get strips enclosing quotes like the reference implementation); plain member names.', 'DESIGN.md section 4 C15'),
+         'Trusted: the harness types implement the trait faithfully (get strips enclosing quotes greedily like the reference implementation, or exactly one pair in V3, where names ending with a quote are not judged).', 'DESIGN.md section 4 C15'),
 }
 NOT_YET = 'check under construction in this session (designed in DESIGN.md section 4); not yet registered'
 
